@@ -58,6 +58,9 @@ func setupBase(b *base) sdk.Context {
 			panic(r.String())
 		}
 	}
+	// the bank module already knows the metadata (with its alias) of a coin that is registered as a pair only later
+	// (bank genesis, or a coin the crosschain module described first)
+	w.App.BankKeeper.SetDenomMetaData(ctx, fxtypes.GetCrossChainMetadataManyToOne("Dai", "DAI", 18, "eth"+scen.ExtAddr("eth", "dai")))
 	// u1 also holds five units of usdt in eth's bridge denomination (what a deposit leaves before it is converted to
 	// the base denom; balances of this kind exist from earlier versions)
 	if err := scen.Keeper(w, "eth").DepositBridgeToken(ctx, sdk.NewInt64Coin(b.toks["usdt"].Bridge["eth"], 5), w.A("u1").Acc()); err != nil {
